@@ -29,8 +29,20 @@ ROUTING  real: SecNode + Dispatcher (handle_logging, handle__ident -> reset_conn
          `histories` (no merging) covers these for short histories.
          quick: 2 connections (37^2 = 1369 states); thorough: 3 connections, reduced by the symmetry of connections
          (one representative per multiset of rows; every operation of every connection is applied to it).
+  sub-check `redundant`: the differential check that justifies the merging ("a state reached by two different
+         histories behaves identically").  For every abstract state S of 2 connections, every operation r that leaves
+         the reference table unchanged (`logging <m> <the level it has>`, in particular `logging <other module> off`,
+         `logging . <level>` when both have it, *IDN? with everything off, a refused invalid level, the unknown module;
+         quick: one representative refused level, thorough: all seven on both targets) and every final operation f
+         (quick: the operations of the clause "switching off, re-identifying or disconnecting stops delivery":
+         logging <m1|m2|.> off, *IDN?, disconnect of either connection; thorough: every operation): fresh node,
+         history(S) + r + f, reply judged, full probe.  A disagreement that the route without r does not show is
+         reported under `...:only-after-redundant-<class of r>` (implementation state that depends on the history
+         beyond the table, e.g. a remembered "has logging" flag that a single-module `off` clears).
   sub-check `histories`: every operation sequence of length <= 2 (quick) / 3 (thorough) on 2 connections without any
-         merging (emit is an ordinary operation here), judged after every step, full probe at the end.
+         merging (emit is an ordinary operation here), judged after every step, full probe at the end; and
+         `histories-reduced`: every sequence of length 3 (quick) / 4 (thorough) over the alphabet without emits and with
+         one representative refused level (44 operations), again judged at every step and probed at the end.
 
 ROTATION real: frappy.logging.LogfileHandler (mlzlog.LogfileHandler) doRollover / emit on a scratch directory
          (tempfile.mkdtemp, removed afterwards).  fake: the `time` name inside mlzlog (virtual date).
@@ -295,7 +307,7 @@ def judge_emit(part, state, op, exc, msgs, text, case, after, actor):
                 problem = 'log-message-malformed'
         if problem:
             ok = False
-            part.violation(f'C20:routing:after-{after}:{who}:{problem}{tag}', case,
+            part.violation(f'C20:routing:after-{after}:{who}:{problem}{tag}{case.get("sigtag", "")}', case,
                            f'{case_text(case)}: then {optext(op)}: conn{c + 1} got {got!r}, expected '
                            f'{"one log message" if want else "nothing"} (table: {table_text(state)})')
     return ok
@@ -346,11 +358,13 @@ def probe(part, rig, state, case, after, actor, records=RECORDS):
     return ok
 
 
-def run_history(part, nconn, ops, judge_all=True, records=RECORDS):
+def run_history(part, nconn, ops, judge_all=True, records=RECORDS, sigtag=''):
     """fresh node, apply ops (judging every step if judge_all, else only the last), full probe at the end;
-    used by bfs (history + op), histories and replay"""
+    used by bfs (history + op), redundant, histories and replay"""
     rig = Rig(nconn, part)
     case = {'kind': 'routing', 'nconn': nconn, 'ops': [list(op) for op in ops]}
+    if sigtag:
+        case['sigtag'] = sigtag
     try:
         state = rig.state
         ok = True
@@ -439,24 +453,95 @@ def bfs_shard(shard):
     return part
 
 
-def histories_shard(shard):
-    _, nconn, first, depth = shard
+BAD_REPRESENTATIVE = 'unknown-name'
+
+
+def inserted_ops(state, full):
+    """operations that leave the reference table of `state` unchanged (candidates for a redundant history): a level
+    set to what it already is (incl. `off` for a module that is off), *IDN? of a connection with everything off, a
+    refused request.  full: all of them; else one refused invalid level + the unknown module per connection"""
+    res = []
+    for op in ops_for(state, False):
+        if ref_apply(state, op) != state:
+            continue
+        if not full and op[0] == 'bad' and (op[2] != 'm1' or op[3] != BAD_REPRESENTATIVE):
+            continue
+        res.append(op)
+    return res
+
+
+def final_ops(state, full):
+    """operations applied after the redundant history.  full: every operation; else the operations of the clause
+    "switching off, re-identifying or disconnecting stops delivery" (their effect is what depends on remembered
+    history): logging <m1|m2|.> off, *IDN?, disconnect of every connected connection"""
+    ops = ops_for(state, False)
+    if full:
+        return ops
+    return [op for op in ops if op[0] in ('idn', 'disc') or op[0] == 'set' and op[3] == 'off']
+
+
+def redundant_shard(shard):
+    """differential check behind the merging of the bfs: the abstract state reached by the shortest history and the same
+    state reached by shortest history + one redundant operation must have the same futures.  For every state, every
+    inserted operation r and every final operation f: fresh node, history + r + f, reply of f judged, full probe."""
+    _, nconn, items, full = shard
     part = core.Part()
+    for state, hist in items:
+        for r in inserted_ops(state, full):
+            part.states += 1
+            for f in final_ops(state, full):
+                part.evaluations += 1
+                part.nontrivial += 1
+                ops = tuple(hist) + (r, f)
+                scratch = core.Part()
+                ok, s2 = run_history(scratch, nconn, ops, judge_all=False, records=BFS_RECORDS)
+                label = 'same-future'
+                if not ok:
+                    plain = core.Part()
+                    ok_plain, _ = run_history(plain, nconn, tuple(hist) + (f,), judge_all=False, records=BFS_RECORDS)
+                    if ok_plain:
+                        # only the redundant route misbehaves: report it under its own signature class
+                        scratch = core.Part()
+                        run_history(scratch, nconn, ops, judge_all=False, records=BFS_RECORDS,
+                                    sigtag=f':only-after-redundant-{opclass(r)}')
+                        label = 'DIFFERENT-FUTURE'
+                    else:
+                        label = 'VIOLATION-on-both-routes'
+                part.merge(scratch)
+                part.outcomes[f'redundant-{opclass(r)}:then-{opclass(f)}:{label}'] += 1
+                if part.evaluations % 3001 == 1:
+                    part.sample({'sub': 'redundant', 'state': table_text(state), 'inserted': optext(r), 'final': optext(f),
+                                 'successor': table_text(s2), 'result': label})
+    return part
+
+
+def reduced_ops(state):
+    """alphabet of the deeper unmerged histories: no emits (the probe after the last operation emits everything) and
+    one representative refused level"""
+    return [op for op in ops_for(state, False)
+            if op[0] != 'bad' or (op[2] == 'm1' and op[3] == BAD_REPRESENTATIVE)]
+
+
+def histories_shard(shard):
+    """every operation sequence starting with `first`, lengths minlen..depth, executed without any merging"""
+    _, nconn, first, depth, reduced, minlen = shard
+    part = core.Part()
+    name = 'reduced-history' if reduced else 'history'
 
     def rec(state, ops):
-        if ops:
+        if len(ops) >= minlen:
             part.evaluations += 1
             part.states += 1
             ok, _ = run_history(part, nconn, ops, judge_all=True)
             kinds = {opclass(o) for o in ops}
             if len(kinds) > 1:
                 part.nontrivial += 1
-            part.outcomes[f'history-of-{len(ops)}:{"agrees" if ok else "VIOLATION"}'] += 1
+            part.outcomes[f'{name}-of-{len(ops)}:{"agrees" if ok else "VIOLATION"}'] += 1
             if part.evaluations % 1201 == 1:
                 part.sample({'sub': 'histories', 'history': [optext(o) for o in ops], 'agrees': ok})
         if len(ops) >= depth:
             return
-        for op in ops_for(state, True):
+        for op in (reduced_ops(state) if reduced else ops_for(state, True)):
             rec(ref_apply(state, op), ops + (op,))
 
     rec(ref_apply(initial(nconn), first), (first,))
@@ -675,8 +760,8 @@ ROT_CHUNKS = 2
 
 def bounds(tier):
     if tier == 'quick':
-        return dict(nconn=2, symmetric=False, hist_depth=2, per_shard=12)
-    return dict(nconn=3, symmetric=True, hist_depth=3, per_shard=24)
+        return dict(nconn=2, symmetric=False, hist_depth=2, reduced_depth=3, redundant_full=False, per_shard=12)
+    return dict(nconn=3, symmetric=True, hist_depth=3, reduced_depth=4, redundant_full=True, per_shard=24)
 
 
 def run(ctx):
@@ -701,10 +786,20 @@ def run(ctx):
             order2, depth2, _, _ = reference_bfs(2, False)
             ctx.pmap(bfs_shard, [('bfs', 2, order2[i:i + n]) for i in range(0, len(order2), n)], name='bfs2')
             info.update(bfs2_states=len(order2), bfs2_depth_to_closure=depth2)
+    if want('redundant'):
+        order2, _, _, _ = reference_bfs(2, False)
+        n = 6
+        ctx.pmap(redundant_shard, [('redundant', 2, order2[i:i + n], b['redundant_full']) for i in range(0, len(order2), n)],
+                 name='redundant')
+        info.update(redundant_states=len(order2), redundant_all_operations=b['redundant_full'])
     if want('histories'):
         firsts = ops_for(initial(2), True)
-        ctx.pmap(histories_shard, [('histories', 2, op, b['hist_depth']) for op in firsts], name='histories')
+        ctx.pmap(histories_shard, [('histories', 2, op, b['hist_depth'], False, 1) for op in firsts], name='histories')
         info.update(history_alphabet=len(firsts), history_depth=b['hist_depth'])
+        rfirsts = reduced_ops(initial(2))
+        ctx.pmap(histories_shard, [('histories', 2, op, b['reduced_depth'], True, b['hist_depth'] + 1) for op in rfirsts],
+                 name='histories-reduced')
+        info.update(reduced_history_alphabet=len(rfirsts), reduced_history_depth=b['reduced_depth'])
     if want('rotation'):
         window, foreigns, modes = rotation_cases(ctx.tier)
         ctx.pmap(rotation_shard, [('rotation', n, mode, ch) for n in range(8) for mode in modes for ch in range(ROT_CHUNKS)],
@@ -716,13 +811,21 @@ def run(ctx):
         'model x every operation {logging <m1|m2|.> <6 levels>, 7 invalid levels x <m1|.>, unknown module, *IDN?, disconnect} of '
         'every connected connection, each executed on a freshly built real node after the shortest history to the state, '
         'followed by a probe emitting all 2 modules x 5 record levels and comparing the deliveries to all connections; '
-        f'routing/histories: every operation sequence (emit included) of length <= {b["hist_depth"]} on 2 connections, no merging; '
+        'routing/redundant: for every abstract state of 2 connections, every operation that leaves the reference table unchanged '
+        f'({"all" if b["redundant_full"] else "same-level sets, no-op *IDN?, one refused level, unknown module"}) inserted after the '
+        f'shortest history, then every {"operation" if b["redundant_full"] else "switch-off / *IDN? / disconnect operation"} + probe: the '
+        'state reached by two different histories must have the same futures (differential check behind the state merging); '
+        f'routing/histories: every operation sequence (emit included) of length <= {b["hist_depth"]} on 2 connections, no merging, and '
+        f'every sequence of length {b["hist_depth"] + 1}..{b["reduced_depth"]} over the alphabet without emits and with one '
+        'representative refused level, each followed by the full probe; '
         'rotation: every subset of dated log files in the window x foreign entry sets x max_days 0..7 x 3 rollovers. '
         'evaluations = (state, operation) transitions executed on the real node and probed + histories + scratch directories; distinct_nontrivial = bfs transitions that '
         'change the table or must be refused + histories mixing operation classes + rotations with retention and a non-empty '
         'directory; states = abstract states explored + histories + directories; transitions = operations applied to the real '
         'node / rollovers and emits on the real handler; traces = emitted records resp. rollovers compared with the reference')
-    ctx.coverage.update(bound_completed=f'routing: closure on {b["nconn"]} connections x 2 modules; histories depth {b["hist_depth"]}; '
+    ctx.coverage.update(bound_completed=f'routing: closure on {b["nconn"]} connections x 2 modules; one redundant operation before every '
+                                        f'final operation from every 2-connection state; histories depth {b["hist_depth"]} '
+                                        f'(reduced alphabet: {b["reduced_depth"]}); '
                                         f'rotation: {6 if ctx.tier == "quick" else 7}-day window, max_days 0..7, 3 rollovers', **info)
     ctx.assume('connections are interchangeable in the code under test (used for the symmetry reduction with 3 connections only)',
                'records are emitted on the modules\' own loggers (children like <module>.io are not covered)',
@@ -743,5 +846,5 @@ def replay(case):
             shutil.rmtree(tmp, ignore_errors=True)
     else:
         ops = tuple(tuple(op) for op in case['ops'])
-        run_history(part, case['nconn'], ops, judge_all=True)
+        run_history(part, case['nconn'], ops, judge_all=True, sigtag=case.get('sigtag', ''))
     return part
